@@ -1,6 +1,9 @@
 import CE.Cbe.Encode
 import CE.Cbe.Decode
 import CE.Canon
+import CE.Api.Dispatch
+import CE.Gen.Api
+import CE.Cbe.Minimal
 import CE.Rules.Machine
 import CE.Rules.Table
 import CE.Chars.Chars
@@ -137,8 +140,37 @@ def measureOp (args : List String) : String :=
     | none => "BADINPUT"
   | _ => "BADINPUT"
 
+def minLenOp (args : List String) : String :=
+  match args with
+  | [ev] =>
+    match Ev.parseList ev with
+    | some [e] => match Cbe.minLen e with | some n => toString n | none => "UNMODELLED"
+    | _ => "BADINPUT"
+  | _ => "BADINPUT"
+
+def fmtName : Option Api.Fmt → String
+  | some .cte => "cte" | some .cbe => "cbe" | none => "none"
+
+/-- API.DETECT byte → cte|cbe|none for the decoder table, then for the unmarshaler table -/
+def apiDetect (args : List String) : String :=
+  match args with
+  | [b] => match b.toNat? with
+    | some n => fmtName (Api.detect Gen.decoderCases n) ++ " " ++ fmtName (Api.detect Gen.unmarshalerCases n)
+    | none => "BADINPUT"
+  | _ => "BADINPUT"
+
+/-- API.VERSION fmt v → 1 if a document with header version v is accepted -/
+def apiVersion (args : List String) : String :=
+  match args with
+  | [f, v] => match v.toNat? with
+    | some n =>
+      let m := if f == "cbe" then Gen.cbeVersionMap else Gen.cteVersionMap
+      if Api.versionAccepted m Gen.libVersion n then "1" else "0"
+    | none => "BADINPUT"
+  | _ => "BADINPUT"
+
 def ops : List (String × (List String → String)) :=
-  [("CBE.ENC", cbeEnc), ("CBE.DEC", cbeDec), ("CANON.EQ", canonEq), ("RULES", rulesOp), ("WF.REL", wfRel), ("FWD.EQ", fwdEq), ("MEASURE", measureOp)]
+  [("CBE.ENC", cbeEnc), ("CBE.DEC", cbeDec), ("CANON.EQ", canonEq), ("RULES", rulesOp), ("WF.REL", wfRel), ("FWD.EQ", fwdEq), ("MEASURE", measureOp), ("CBE.MINLEN", minLenOp), ("API.DETECT", apiDetect), ("API.VERSION", apiVersion)]
 
 def splitArrow : List String → List String × String
   | [] => ([], "")
